@@ -27,10 +27,11 @@ theorem inDomain_parts {p : Provider} {e : Event} (h : inDomain p e = true) :
   exact ⟨h.1.1.1, h.1.1.2, h.1.2⟩
 
 /-- The model's check with a freshly built context decides what the rules (departures D1–D17) decide, for every
-    event class — the dispatch of `Ctx.allowed` against `rulesDecision`. -/
-theorem ctx_allowed_eq_spec (c : Ctx) (p : Provider) (hf : Fresh p c) (e : Event) (sig : Bool) (sv : SpecVersion)
-    (hsv : specVersion? e.ver = some sv) (hdom : inDomain p e = true) :
-    accepts (c.allowed e sig) = some (rulesDecision lib c p sv e sig) := by
+    event class that is judged against the power levels — the second dispatch of `Ctx.allowed` against `rulesDecisionPL`. -/
+theorem ctx_dispatchPL_eq_spec (c : Ctx) (p : Provider) (hf : Fresh p c) (hpl : c.plErr = none) (e : Event) (sig : Bool)
+    (sv : SpecVersion) (hsv : specVersion? e.ver = some sv) (hdom : inDomain p e = true)
+    (h1' : (e.type == b!"m.room.create") = false) (h2' : (e.type == b!"m.room.aliases") = false) :
+    accepts (c.dispatchPL e sig) = some (rulesDecisionPL lib c p sv e sig) := by
   obtain ⟨hrowS, hroom, hsender⟩ := inDomain_parts hdom
   cases hrow : e.row with
   | none => simp [hrow] at hrowS
@@ -39,7 +40,41 @@ theorem ctx_allowed_eq_spec (c : Ctx) (p : Provider) (hf : Fresh p c) (e : Event
     have : sv' = sv := by rw [hsv] at hsv'; cases hsv'; rfl
     subst this
     unfold inDomain at hdom
-    unfold Ctx.allowed rulesDecision
+    unfold Ctx.dispatchPL rulesDecisionPL
+    simp only [h1', h2', Bool.false_eq_true, if_false, Bool.false_and] at hdom ⊢
+    by_cases h3 : (e.type == b!"m.room.member") = true
+    · simp only [h3, if_true, Bool.and_eq_true, Bool.not_eq_true'] at hdom ⊢
+      exact member_eq c p hf e sig row sv' hrow hri hsender hroom hdom.2.1.1.1 hdom.2.1.1.2 hdom.2.1.2 hdom.2.2
+    · have h3' : (e.type == b!"m.room.member") = false := by simpa using h3
+      simp only [h3', Bool.false_eq_true, if_false, Bool.and_eq_true, Bool.not_eq_true'] at hdom ⊢
+      by_cases h4 : (e.type == b!"m.room.power_levels") = true
+      · simp only [h4, if_true] at hdom ⊢
+        exact power_levels_eq c p hf hpl e row sv' hrow hri hsender hroom hdom.2.1 hdom.2.2
+      · have h4' : (e.type == b!"m.room.power_levels") = false := by simpa using h4
+        simp only [h4', Bool.false_eq_true, if_false]
+        by_cases h5 : (e.type == b!"m.room.redaction") = true
+        · simp only [h5, if_true]
+          exact redaction_eq c p hf e hsender hroom hdom.2.1
+        · have h5' : (e.type == b!"m.room.redaction") = false := by simpa using h5
+          simp only [h5', Bool.false_eq_true, if_false]
+          exact default_eq c p hf e hsender hroom hdom.2.1
+
+/-- … for every event class: m.room.create and m.room.aliases are decided without the power levels; for every other
+    event a power-levels auth event that cannot be read (`powerLevelsErr` in the code, `plUnusable` in the rules)
+    refuses, and otherwise `ctx_dispatchPL_eq_spec` applies. -/
+theorem ctx_dispatch_eq_spec (c : Ctx) (p : Provider) (hf : Fresh p c) (e : Event) (sig : Bool) (sv : SpecVersion)
+    (hsv : specVersion? e.ver = some sv) (hdom : inDomain p e = true) :
+    accepts (c.dispatch e sig) = some (rulesDecision lib c p sv e sig) := by
+  obtain ⟨hrowS, hroom, hsender⟩ := inDomain_parts hdom
+  cases hrow : e.row with
+  | none => simp [hrow] at hrowS
+  | some row =>
+    obtain ⟨sv', hsv', hri⟩ := rowIs_of (ver := e.ver) (row := row) hrow
+    have : sv' = sv := by rw [hsv] at hsv'; cases hsv'; rfl
+    subst this
+    have hdom0 := hdom
+    unfold inDomain at hdom
+    unfold Ctx.dispatch rulesDecision
     have hd6 : aliasesRuleApplies lib sv' = true := rfl
     by_cases h1 : (e.type == b!"m.room.create") = true
     · simp only [h1, if_true, Bool.and_eq_true] at hdom ⊢
@@ -54,23 +89,30 @@ theorem ctx_allowed_eq_spec (c : Ctx) (p : Provider) (hf : Fresh p c) (e : Event
       · simp only [h2, if_true, hd6, Bool.and_true]
         exact aliases_eq c p hf e hsender hroom
       · have h2' : (e.type == b!"m.room.aliases") = false := by simpa using h2
-        simp only [h2', Bool.false_eq_true, if_false, Bool.false_and] at hdom ⊢
-        by_cases h3 : (e.type == b!"m.room.member") = true
-        · simp only [h3, if_true, Bool.and_eq_true, Bool.not_eq_true'] at hdom ⊢
-          exact member_eq c p hf e sig row sv' hrow hri hsender hroom hdom.2.1.1.1 hdom.2.1.1.2 hdom.2.1.2 hdom.2.2
-        · have h3' : (e.type == b!"m.room.member") = false := by simpa using h3
-          simp only [h3', Bool.false_eq_true, if_false, Bool.and_eq_true, Bool.not_eq_true'] at hdom ⊢
-          by_cases h4 : (e.type == b!"m.room.power_levels") = true
-          · simp only [h4, if_true] at hdom ⊢
-            exact power_levels_eq c p hf e row sv' hrow hri hsender hroom hdom.2.1 hdom.2.2
-          · have h4' : (e.type == b!"m.room.power_levels") = false := by simpa using h4
-            simp only [h4', Bool.false_eq_true, if_false]
-            by_cases h5 : (e.type == b!"m.room.redaction") = true
-            · simp only [h5, if_true]
-              exact redaction_eq c p hf e hsender hroom hdom.2.1
-            · have h5' : (e.type == b!"m.room.redaction") = false := by simpa using h5
-              simp only [h5', Bool.false_eq_true, if_false]
-              exact default_eq c p hf e hsender hroom hdom.2.1
+        simp only [h2', Bool.false_eq_true, if_false, Bool.false_and]
+        obtain ⟨hs1, hs2⟩ := plErr_spec hf
+        cases hpe : c.plErr with
+        | some v =>
+          rw [hpe] at hs1
+          simp only [Option.isSome_some] at hs1
+          rw [← hs1]
+          simp only [if_true]
+          rcases hs2 v hpe with rfl | rfl <;> rfl
+        | none =>
+          rw [hpe] at hs1
+          simp only [Option.isSome_none] at hs1
+          rw [← hs1]
+          simp only [Bool.false_eq_true, if_false]
+          exact ctx_dispatchPL_eq_spec c p hf hpe e sig sv' hsv hdom0 h1' h2'
+
+/-- `allowerContext.allowed`: behind the `Valid()` gate (which the rules have as "auth events from different rooms are
+    refused") the dispatch decides what the rules decide. -/
+theorem ctx_allowed_eq_spec (c : Ctx) (p : Provider) (hf : Fresh p c) (hv : p.valid = true) (e : Event) (sig : Bool)
+    (sv : SpecVersion) (hsv : specVersion? e.ver = some sv) (hdom : inDomain p e = true) :
+    accepts (c.allowed e sig) = some (rulesDecision lib c p sv e sig) := by
+  unfold Ctx.allowed
+  rw [hf.provider, hv]
+  exact ctx_dispatch_eq_spec c p hf e sig sv hsv hdom
 
 /-- **C07.**  For every event, room version, set of auth events and signature oracle: whenever the authorisation rules
     — the transcription `rulesAllow` with exactly the documented departures of DESIGN.md §6.1 (`Departures.library`,
@@ -99,7 +141,8 @@ theorem allowed_eq_spec (e : Event) (p : Provider) (sig : Bool) (b : Bool)
         by_cases hdom : inDomain p e = true
         · simp only [hdom, if_true, Option.some.injEq] at h
           subst h
-          exact decision_of_accepts _ _ (ctx_allowed_eq_spec c p hf e sig sv hsv hdom)
+          have hv' : p.valid = true := by simpa using hv
+          exact decision_of_accepts _ _ (ctx_allowed_eq_spec c p hf hv' e sig sv hsv hdom)
         · simp only [hdom, if_false, Bool.false_eq_true] at h
           cases h
 
@@ -107,6 +150,13 @@ theorem allowed_eq_spec (e : Event) (p : Provider) (sig : Bool) (b : Bool)
 theorem different_rooms_refused (e : Event) (p : Provider) (sig : Bool) (h : ¬ p.valid = true) :
     allowedFresh e p sig = .notAllowed := by
   unfold allowedFresh
+  simp [h]
+
+/-- … and the REUSED checker refuses them too (32272dd; before, only the entry point `Allowed` asked): whatever
+    context state resolution has built up, a check against a provider holding events of several rooms is refused. -/
+theorem reused_checker_refuses_different_rooms (c : Ctx) (e : Event) (sig : Bool) (h : ¬ c.provider.valid = true) :
+    c.allowed e sig = notAllowed := by
+  unfold Ctx.allowed
   simp [h]
 
 /-- **No input makes the model of `Allowed` panic** (given a room ID the event constructors accept): the room-ID
@@ -143,8 +193,8 @@ the modelled domain, the model's check decides exactly the rule's formula.  `lib
 theorem create_eq_spec (c : Ctx) (p : Provider) (hf : Fresh p c) (e : Event) (sig : Bool) (sv : SpecVersion)
     (hsv : specVersion? e.ver = some sv) (hdom : inDomain p e = true) (ht : (e.type == b!"m.room.create") = true) :
     accepts (c.createEventAllowed e) = some (ruleCreate lib sv e) := by
-  have := ctx_allowed_eq_spec c p hf e sig sv hsv hdom
-  unfold Ctx.allowed rulesDecision at this
+  have := ctx_dispatch_eq_spec c p hf e sig sv hsv hdom
+  unfold Ctx.dispatch rulesDecision at this
   simpa only [ht, if_true] using this
 
 /-- rule 4 (D6: in every version) -/
@@ -154,18 +204,18 @@ theorem aliases_eq_spec (c : Ctx) (p : Provider) (hf : Fresh p c) (e : Event) (h
   exact aliases_eq c p hf e hsender hroom
 
 /-- rule 5 -/
-theorem member_eq_spec (c : Ctx) (p : Provider) (hf : Fresh p c) (e : Event) (sig : Bool) (sv : SpecVersion)
+theorem member_eq_spec (c : Ctx) (p : Provider) (hf : Fresh p c) (hpl : c.plErr = none) (e : Event) (sig : Bool) (sv : SpecVersion)
     (hsv : specVersion? e.ver = some sv) (hdom : inDomain p e = true) (ht : (e.type == b!"m.room.member") = true) :
     accepts (c.memberEventAllowed e sig) = some (ruleMember lib c p sv e sig) := by
-  have := ctx_allowed_eq_spec c p hf e sig sv hsv hdom
-  unfold Ctx.allowed rulesDecision at this
   have h1 : (e.type == b!"m.room.create") = false := by
     have : e.type = b!"m.room.member" := by simpa using ht
     rw [this]; decide
   have h2 : (e.type == b!"m.room.aliases") = false := by
     have : e.type = b!"m.room.member" := by simpa using ht
     rw [this]; decide
-  simpa only [ht, h1, h2, if_true, Bool.false_eq_true, if_false, Bool.false_and] using this
+  have := ctx_dispatchPL_eq_spec c p hf hpl e sig sv hsv hdom h1 h2
+  unfold Ctx.dispatchPL rulesDecisionPL at this
+  simpa only [ht, if_true] using this
 
 /-- rules 5.3–5.8 once the contents are loaded: the sender changes their own membership (`membershipAllowedSelf`) … -/
 theorem member_self_eq_spec {m : MembershipAllower} {i : MemberInputs} {row : VGen.VersionRow} (h : Rel m i row)
@@ -234,40 +284,40 @@ theorem third_party_eq_spec (i : MemberInputs) (s : ThirdPartySigned) (tpKeys : 
   · simp [hmx]
 
 /-- rule 10 (D3, D4, D8, D11, D15; the C08 predicates) -/
-theorem power_levels_eq_spec (c : Ctx) (p : Provider) (hf : Fresh p c) (e : Event) (sig : Bool) (sv : SpecVersion)
+theorem power_levels_eq_spec (c : Ctx) (p : Provider) (hf : Fresh p c) (hpl : c.plErr = none) (e : Event) (sig : Bool) (sv : SpecVersion)
     (hsv : specVersion? e.ver = some sv) (hdom : inDomain p e = true) (ht : (e.type == b!"m.room.power_levels") = true) :
     accepts (c.powerLevelsEventAllowed e) = some (rulePowerLevels lib c p sv e) := by
-  have := ctx_allowed_eq_spec c p hf e sig sv hsv hdom
-  unfold Ctx.allowed rulesDecision at this
   have hty : e.type = b!"m.room.power_levels" := by simpa using ht
   have h1 : (e.type == b!"m.room.create") = false := by rw [hty]; decide
   have h2 : (e.type == b!"m.room.aliases") = false := by rw [hty]; decide
   have h3 : (e.type == b!"m.room.member") = false := by rw [hty]; decide
-  simpa only [ht, h1, h2, h3, if_true, Bool.false_eq_true, if_false, Bool.false_and] using this
+  have := ctx_dispatchPL_eq_spec c p hf hpl e sig sv hsv hdom h1 h2
+  unfold Ctx.dispatchPL rulesDecisionPL at this
+  simpa only [ht, h3, if_true, Bool.false_eq_true, if_false] using this
 
 /-- rule 11 (D5, D17) -/
-theorem redaction_eq_spec (c : Ctx) (p : Provider) (hf : Fresh p c) (e : Event) (sig : Bool) (sv : SpecVersion)
+theorem redaction_eq_spec (c : Ctx) (p : Provider) (hf : Fresh p c) (hpl : c.plErr = none) (e : Event) (sig : Bool) (sv : SpecVersion)
     (hsv : specVersion? e.ver = some sv) (hdom : inDomain p e = true) (ht : (e.type == b!"m.room.redaction") = true) :
     accepts (c.redactEventAllowed e) = some (ruleRedaction lib c p e) := by
-  have := ctx_allowed_eq_spec c p hf e sig sv hsv hdom
-  unfold Ctx.allowed rulesDecision at this
   have hty : e.type = b!"m.room.redaction" := by simpa using ht
   have h1 : (e.type == b!"m.room.create") = false := by rw [hty]; decide
   have h2 : (e.type == b!"m.room.aliases") = false := by rw [hty]; decide
   have h3 : (e.type == b!"m.room.member") = false := by rw [hty]; decide
   have h4 : (e.type == b!"m.room.power_levels") = false := by rw [hty]; decide
-  simpa only [ht, h1, h2, h3, h4, if_true, Bool.false_eq_true, if_false, Bool.false_and] using this
+  have := ctx_dispatchPL_eq_spec c p hf hpl e sig sv hsv hdom h1 h2
+  unfold Ctx.dispatchPL rulesDecisionPL at this
+  simpa only [ht, h3, h4, if_true, Bool.false_eq_true, if_false] using this
 
 /-- rules 3, m.federate, 6–9, 12: every other event type -/
-theorem default_eq_spec (c : Ctx) (p : Provider) (hf : Fresh p c) (e : Event) (sig : Bool) (sv : SpecVersion)
+theorem default_eq_spec (c : Ctx) (p : Provider) (hf : Fresh p c) (hpl : c.plErr = none) (e : Event) (sig : Bool) (sv : SpecVersion)
     (hsv : specVersion? e.ver = some sv) (hdom : inDomain p e = true)
     (h1 : (e.type == b!"m.room.create") = false) (h2 : (e.type == b!"m.room.aliases") = false)
     (h3 : (e.type == b!"m.room.member") = false) (h4 : (e.type == b!"m.room.power_levels") = false)
     (h5 : (e.type == b!"m.room.redaction") = false) :
     accepts (c.defaultEventAllowed e) = some (ruleCommon lib c p e) := by
-  have := ctx_allowed_eq_spec c p hf e sig sv hsv hdom
-  unfold Ctx.allowed rulesDecision at this
-  simpa only [h1, h2, h3, h4, h5, Bool.false_eq_true, if_false, Bool.false_and] using this
+  have := ctx_dispatchPL_eq_spec c p hf hpl e sig sv hsv hdom h1 h2
+  unfold Ctx.dispatchPL rulesDecisionPL at this
+  simpa only [h3, h4, h5, Bool.false_eq_true, if_false] using this
 
 /-! ## The per-version switches the rules use, against the regenerated table -/
 
@@ -446,6 +496,70 @@ theorem repaired_witnesses :
     (wF3.model = some false ∧ wF3.rules .library = some false) ∧
     (wF4.model = some true ∧ wF4.rules .library = some true) ∧
     (wF5.model = some false ∧ wF5.rules .library = some false) := by
+  decide +kernel
+
+/-! ### round 4: the audited defects A1–A4, repaired in /repo (548eba1, 33ac4f7, d1e42dd, dbee289): the former failing inputs -/
+
+/-- events of a version-12 room whose create event has ID `$c` carry the room ID `!c` -/
+def r12 : List (Bytes × JVal) := [(b!"room_id", .str b!"!c")]
+def wCreate12 (content : List (Bytes × JVal) := []) : Event := mkEv b!"12" b!"$c" b!"m.room.create" b!"@c:x" (some []) content []
+def wMember12 (u : Bytes) : Event :=
+  mkEv b!"12" (b!"$m" ++ u) b!"m.room.member" u (some u) [(b!"membership", .str b!"join")] [b!"$p"] r12
+
+/-- A1: version 12; the creator (privileged, not listed in `users`) adds `notifications.room = 60` -/
+def wA1 : Witness :=
+  (mkEv b!"12" b!"$e" b!"m.room.power_levels" b!"@c:x" (some [])
+     [users [(b!"@a:x", b!"50")], (b!"notifications", .obj [(b!"room", .num b!"60")])] [b!"$p"] r12,
+   [wCreate12, wMember12 b!"@c:x",
+    mkEv b!"12" b!"$pl" b!"m.room.power_levels" b!"@c:x" (some []) [users [(b!"@a:x", b!"50")]] [b!"$p"] r12], false)
+/-- A1: an additional creator, no power-levels event, sets `notifications.room = 100` -/
+def wA1b : Witness :=
+  (mkEv b!"12" b!"$e" b!"m.room.power_levels" b!"@b:x" (some []) [(b!"notifications", .obj [(b!"room", .num b!"100")])] [b!"$p"] r12,
+   [wCreate12 [(b!"additional_creators", .arr [.str b!"@b:x"])], wMember12 b!"@b:x"], false)
+/-- … while an ordinary member at level 50 still cannot raise it above their level -/
+def wA1c : Witness :=
+  (mkEv b!"12" b!"$e" b!"m.room.power_levels" b!"@a:x" (some [])
+     [users [(b!"@a:x", b!"50")], (b!"notifications", .obj [(b!"room", .num b!"60")])] [b!"$p"] r12,
+   [wCreate12, wMember12 b!"@a:x",
+    mkEv b!"12" b!"$pl" b!"m.room.power_levels" b!"@c:x" (some []) [users [(b!"@a:x", b!"50")], (b!"state_default", .num b!"50")] [b!"$p"] r12], false)
+/-- A2: version 10, `{"ban": null}` / `{"events": null}` / `{"users": {"@a:x": null}}` from the creator -/
+def wA2a : Witness := (wPL [(b!"ban", .null)], [wCreate, wMember b!"@c:x" b!"join"], false)
+def wA2b : Witness := (wPL [(b!"events", .null)], [wCreate, wMember b!"@c:x" b!"join"], false)
+def wA2c : Witness := (wPL [(b!"users", .obj [(b!"@a:x", .null)])], [wCreate, wMember b!"@c:x" b!"join"], false)
+/-- A3: the power-levels AUTH event has `"ban": "x"` (unreadable in every version); a level-0 member sends
+    m.room.join_rules — and, for comparison, the same without any power-levels event (defaults: refused as well) and an
+    m.room.create / m.room.aliases event, whose rules do not look at the power levels -/
+def wA3 : Witness :=
+  (mkEv b!"10" b!"$e" b!"m.room.join_rules" b!"@a:x" (some []) [(b!"join_rule", .str b!"public")],
+   [wCreate, wMember b!"@a:x" b!"join", wPL [users [(b!"@c:x", b!"100")], (b!"ban", .str b!"x")]], false)
+def wA3v6 : Witness :=
+  (mkEv b!"6" b!"$e" b!"m.room.join_rules" b!"@a:x" (some []) [(b!"join_rule", .str b!"public")],
+   [wCreate b!"6", wMember b!"@a:x" b!"join" b!"6", wPL [users [(b!"@c:x", b!"100")], (b!"ban", .str b!"x")] b!"@c:x" b!"$pl" b!"6"], false)
+def wA3none : Witness :=
+  (mkEv b!"10" b!"$e" b!"m.room.join_rules" b!"@a:x" (some []) [(b!"join_rule", .str b!"public")],
+   [wCreate, wMember b!"@a:x" b!"join"], false)
+def wA3aliases : Witness :=
+  (mkEv b!"10" b!"$e" b!"m.room.aliases" b!"@a:x" (some b!"x") [],
+   [wCreate, wPL [users [(b!"@c:x", b!"100")], (b!"ban", .str b!"x")]], false)
+/-- A4: a user who knocked sends `leave` for themselves, in a version without knocking (5) and in one with (7) -/
+def wA4 : Witness := (wMemberEv b!"@a:x" b!"@a:x" b!"leave" b!"5", [wCreate b!"5", wMember b!"@a:x" b!"knock" b!"5"], false)
+def wA4v7 : Witness := (wMemberEv b!"@a:x" b!"@a:x" b!"leave" b!"7", [wCreate b!"7", wMember b!"@a:x" b!"knock" b!"7"], false)
+
+/-- on the formerly failing inputs of round 4 the model of the repaired code decides what the rules decide:
+    A1 accepted (was refused), A2 / A3 / A4 refused (were accepted); the neighbouring inputs keep their verdicts -/
+theorem repaired_witnesses_r4 :
+    (wA1.model = some true ∧ wA1.rules .library = some true) ∧
+    (wA1b.model = some true ∧ wA1b.rules .library = some true) ∧
+    (wA1c.model = some false ∧ wA1c.rules .library = some false) ∧
+    (wA2a.model = some false ∧ wA2a.rules .library = some false) ∧
+    (wA2b.model = some false ∧ wA2b.rules .library = some false) ∧
+    (wA2c.model = some false ∧ wA2c.rules .library = some false) ∧
+    (wA3.model = some false ∧ wA3.rules .library = some false) ∧
+    (wA3v6.model = some false ∧ wA3v6.rules .library = some false) ∧
+    (wA3none.model = some false ∧ wA3none.rules .library = some false) ∧
+    (wA3aliases.model = some true ∧ wA3aliases.rules .library = some true) ∧
+    (wA4.model = some false ∧ wA4.rules .library = some false) ∧
+    (wA4v7.model = some true ∧ wA4v7.rules .library = some true) := by
   decide +kernel
 
 end V.C07
